@@ -77,6 +77,8 @@ type scenario struct {
 	TrustedPeer   bool
 	SentXFF       bool
 	SentForwarded bool
+	// SentForwarded2: the Forwarded header came on two lines
+	SentForwarded2 bool
 	// the pipeline produces headers which name the original request (X-Forwarded-Host, X-Forwarded-Proto) itself
 	PipelineNamesOrigin bool
 }
@@ -192,6 +194,12 @@ func genScenario(t *rapid.T) scenario {
 	} else if rapid.IntRange(0, 2).Draw(t, "forwarded") == 0 {
 		s.SentForwarded = true
 		s.ClientHeaders = append(s.ClientHeaders, vkit.HeaderKV{Name: "Forwarded", Value: "for=198.51.100.7;proto=http"})
+
+		// (a list as well, which a chain of proxies may have spread over several header lines)
+		if rapid.IntRange(0, 2).Draw(t, "forwardedSecondLine") == 0 {
+			s.SentForwarded2 = true
+			s.ClientHeaders = append(s.ClientHeaders, vkit.HeaderKV{Name: "Forwarded", Value: "for=203.0.113.9;proto=http"})
+		}
 	}
 
 	if rapid.IntRange(0, 3).Draw(t, "pipelineNamesOrigin") == 0 {
@@ -555,6 +563,14 @@ func TestForwardedRequestIsTheRewrittenRequest(t *testing.T) {
 
 			if s.TrustedPeer && s.SentForwarded && !strings.Contains(fwd, "198.51.100.7") {
 				t.Fatalf("Forwarded %q lost the trusted client's element\n%s", fwd, s)
+			}
+
+			if s.TrustedPeer && s.SentForwarded2 {
+				vkit.S.Label("trusted_client_sent_forwarded_on_two_lines")
+
+				if !strings.Contains(strings.Join(up.Header.Values("Forwarded"), ", "), "203.0.113.9") {
+					t.Fatalf("Forwarded %q lost the element of the trusted client's second header line (203.0.113.9)\n%s", up.Header.Values("Forwarded"), s)
+				}
 			}
 		}
 	})
